@@ -213,7 +213,7 @@ func canon(raw []byte) (string, error) {
 	}
 	// anything after the value must be white space
 	rest, _ := readAll(dec)
-	if len(bytes.TrimSpace(rest)) != 0 {
+	if len(trimJSONSpace(rest)) != 0 {
 		return "", fmt.Errorf("trailing data")
 	}
 	var buf bytes.Buffer
@@ -292,4 +292,10 @@ func abbreviate(s string, n int) string {
 		return s
 	}
 	return fmt.Sprintf("%s...(%d bytes)", s[:n], len(s))
+}
+
+// trimJSONSpace removes JSON white space (space, tab, LF, CR — nothing else:
+// a vertical tab or form feed after a value makes the text invalid JSON).
+func trimJSONSpace(b []byte) []byte {
+	return bytes.Trim(b, " \t\n\r")
 }
